@@ -64,6 +64,20 @@ def op_imprun(f):
         db = p["Database"]()
         do_load(db, f[9], False)
         kw = dict(raw_label=bytes.fromhex(f[1][2:]).decode("latin-1"), database=db)
+        # earlier impersonations on the same Database object (a long-lived database serves many calls, of both IP
+        # versions): "ver.kind.hex,ver.kind.hex,..."; what they return or raise is not judged here
+        for w in (f[10].split(",") if len(f) > 10 and f[10] else []):
+            wv, wk, wh = w.split(".")
+            st0 = random.getstate()
+            random.seed(int(f[8]) ^ 0x5a5a)
+            try:
+                p["I"].impersonate_tcp(base_packet(wv, bytes.fromhex(wh), wk), **kw)
+            except impl.Hang:
+                raise
+            except Exception:  # noqa
+                pass
+            finally:
+                random.setstate(st0)
     else:
         kw = dict(raw_signature=bytes.fromhex(f[1]).decode("latin-1"))
     st = random.getstate()
